@@ -265,9 +265,62 @@ pub fn wc_child(args: &[String]) -> i32 {
     0
 }
 
+
+/// inner writer that accepts everything and keeps only what is small: a write of more than 64 bytes is
+/// recorded as its LENGTH (the bytes are never read, so a multi-GiB slice of untouched zero pages costs nothing)
+#[derive(Default)]
+struct CountOnly {
+    small: Vec<Vec<u8>>,
+    big: Vec<usize>,
+    order: Vec<bool>, // true = big
+}
+
+impl Write for CountOnly {
+    fn write(&mut self, buf: &[u8]) -> io::Result<usize> {
+        if buf.len() > 64 {
+            self.big.push(buf.len());
+            self.order.push(true);
+        } else {
+            self.small.push(buf.to_vec());
+            self.order.push(false);
+        }
+        Ok(buf.len())
+    }
+    fn flush(&mut self) -> io::Result<()> {
+        Ok(())
+    }
+}
+
+/// `wchuge <fg|-> <bg|-> <log2> <extra>`: a coloured write of 2^log2 + extra zero bytes into an accept-all writer;
+/// the count reported must be the number of data bytes the writer accepted, whatever its size.
+/// result: `ok:<n> <bytes before the data hex>|D<len>|<bytes after the data hex>`
+fn wchuge(f: &[&str]) -> String {
+    let fg = colour(f[0]);
+    let bg = colour(f[1]);
+    let n: usize = (1usize << f[2].parse::<u32>().expect("log2")) + f[3].parse::<usize>().expect("extra");
+    let data = vec![0u8; n]; // zeroed allocation: pages are mapped lazily and never touched
+    let mut w = CountOnly::default();
+    let r = anstyle_wincon::ansi::write_colored(&mut w, fg, bg, &data);
+    let mut pre = Vec::new();
+    let mut post = Vec::new();
+    let mut seen_big = false;
+    let mut si = 0;
+    for big in &w.order {
+        if *big {
+            seen_big = true;
+        } else {
+            if seen_big { post.extend_from_slice(&w.small[si]) } else { pre.extend_from_slice(&w.small[si]) }
+            si += 1;
+        }
+    }
+    let d: Vec<String> = w.big.iter().map(|l| format!("D{l}")).collect();
+    format!("{} {}|{}|{}", show_res(&r), show_buf(&pre), d.join("+"), show_buf(&post))
+}
+
 pub fn dispatch(kind: &str, f: &[&str]) -> Option<String> {
     Some(match kind {
         "wc" => wc(f),
+        "wchuge" => wchuge(f),
         _ => return None,
     })
 }
